@@ -153,6 +153,7 @@ type exchange struct {
 	status int
 	body   string
 	hdr    int
+	chunk  int // the body arrives in pieces of at most this many bytes (0 = one piece)
 }
 
 // Response header sets (Case.Hdr): what a server may send next to the status. None of them
@@ -181,6 +182,25 @@ var transportFaults = []struct {
 	{"some other transport error", errors.New("c20: transport broke"), false},
 	{"body cut in the middle (unexpected EOF)", io.ErrUnexpectedEOF, true},
 	{"body cut in the middle (connection reset)", &net.OpError{Op: "read", Net: "tcp", Err: os.NewSyscallError("read", syscall.ECONNRESET)}, true},
+}
+
+// pieces hands the body over in pieces of at most max bytes (0 = in one piece).
+type pieces struct {
+	data string
+	max  int
+}
+
+func (c *pieces) Read(p []byte) (int, error) {
+	if c.data == "" {
+		return 0, io.EOF
+	}
+	n := len(p)
+	if c.max > 0 && n > c.max {
+		n = c.max
+	}
+	n = copy(p[:n], c.data)
+	c.data = c.data[n:]
+	return n, nil
 }
 
 type cutReader struct {
@@ -222,7 +242,7 @@ func (x *exchange) RoundTrip(req *http.Request) (*http.Response, error) {
 		ProtoMajor:    1,
 		ProtoMinor:    1,
 		Header:        headerSets[x.hdr].Clone(),
-		Body:          io.NopCloser(strings.NewReader(x.body)),
+		Body:          io.NopCloser(&pieces{data: x.body, max: x.chunk}),
 		ContentLength: int64(len(x.body)),
 		Request:       req,
 	}, nil
@@ -338,7 +358,8 @@ func checkCase(r *kit.Run, c *Case) {
 	r.Case(fp, nontrivial)
 
 	es := bodyElems(e, c.Body)
-	x := &exchange{status: c.Status, body: bodyXML(e, es), hdr: c.Hdr}
+	// (how the body is cut into pieces follows from the case: one piece, single bytes, 7, 64)
+	x := &exchange{status: c.Status, body: bodyXML(e, es), hdr: c.Hdr, chunk: []int{0, 1, 7, 64}[(c.Body+len(c.Opts)+int(c.ID&3)+c.Limiter)%4]}
 	client := &http.Client{Transport: x}
 	var lim osmapi.RateLimiter
 	switch c.Limiter {
